@@ -107,6 +107,8 @@ fn prepared(cfg: &IoCfg) -> Emu {
     e.verif_write_io(k.ay_dat, 0x22);
     e.verif_write_io(k.ay_sel, 3);
     e.verif_write_io(k.ay_dat, 0x77);
+    // speaker bit on (border stays black): bit 6 of a ULA read is the tape EAR input, not the speaker latch
+    e.verif_write_io(k.ula, 0x10);
     if let Some(x) = e.io_extender() {
         x.log.clear();
     }
